@@ -111,13 +111,13 @@ PROPS = {
         explanation='DOM Level 1 CharacterData over the character sequence of text, comment and CDATA nodes, three layers (info helpers, info methods, DOM methods and CharacterDataMut trait defaults), every function verified against the contracts of its callees for all contents, offsets and counts, including absence of overflow and of std panics',
     ),
     'C13': dict(
-        standin_ops=['dom.text.insert_data', 'dom.text.delete_data', 'dom.text.replace_data', 'dom.text.append_data', 'dom.text.set_data', 'dom.comment.insert_data', 'dom.comment.delete_data', 'dom.comment.replace_data', 'dom.comment.append_data', 'dom.comment.set_data', 'dom.cdata.insert_data', 'dom.cdata.delete_data', 'dom.cdata.replace_data', 'dom.cdata.append_data', 'dom.cdata.set_data'],
-        verus_units=['c16_chardata'],
+        standin_ops=['dom.tree_atomic', 'dom.text.insert_data', 'dom.text.delete_data', 'dom.text.replace_data', 'dom.text.append_data', 'dom.text.set_data', 'dom.comment.insert_data', 'dom.comment.delete_data', 'dom.comment.replace_data', 'dom.comment.append_data', 'dom.comment.set_data', 'dom.cdata.insert_data', 'dom.cdata.delete_data', 'dom.cdata.replace_data', 'dom.cdata.append_data', 'dom.cdata.set_data'],
+        verus_units=['c16_chardata', 'c13_tree'],
         level='proof',
         trusted_base=TRUSTED_VERUS,
-        assumptions=[A1, A2, A3, A4, A6, A8],
-        not_decided='every tree/attribute mutator and factory (append_child, insert_before, replace_child, remove_child, set_named_item, create_*): live Rc<RefCell> graph',
-        explanation='character-data setters only: insert_data, delete_data, replace_data, set_data, append_data on the three node kinds raise IndexSizeErr exactly for an offset past the end, never for a count running past the end, and leave the data unchanged whenever they return Err (atomic failure)',
+        assumptions=[A1, A2, A3, A4, A6, A8, 'c13_tree: the per-type primitives insert_by_id / delete_by_id / child_index / child_by_index / last_child_or_self_id are assumed callees (insert_by_id: hierarchy and type checks first, a refusal changes nothing); the item and the receiver share one document order vector'],
+        not_decided='the per-type primitives under the tree mutators (insert_by_id, delete_by_id of XmlElement/XmlDocument/XmlAttribute: hierarchy and type checks, child-list edits on the live Rc<RefCell> graph -- assumed here; by reading, XmlAttribute::insert_by_id detaches the value before XmlAttributeValue::try_from can refuse it), attribute maps (set_named_item, remove_named_item), the create_* factories, the DOM exception mapping of the tree mutators',
+        explanation='(1) the HasChildren trait defaults append / insert_before / insert_after / delete, through which every DOM tree mutator goes: a refused call leaves child list and document-order vector unchanged, an unknown reference child is refused, an accepted child is in the list, a removed child loses its key; (2) character-data setters: insert_data, delete_data, replace_data, set_data, append_data on the three node kinds raise IndexSizeErr exactly for an offset past the end, never for a count running past the end, and leave the data unchanged whenever they return Err (atomic failure)',
     ),
     'C02': dict(
         standin_ops=['info.char_from_char10', 'info.char_from_char16'],
@@ -204,7 +204,7 @@ MANIFEST_TEXT = {
         technique='contract-based deductive verification (Verus pre/postconditions and frame on extracted real functions, modular across three layers)',
         design_ref='DESIGN.md §4 C16'),
     'C13': dict(
-        level_text='Proof (Verus) of exception class and atomic failure for the character-data mutators only (insert_data, delete_data, replace_data, set_data, append_data x 3 node kinds): Err implies data unchanged; IndexSizeErr iff offset past the end. Tree and attribute mutators not covered.',
+        level_text='Proof (Verus) of (1) atomic failure of the tree-mutator layer HasChildren::{append, insert_before, insert_after, delete} over an abstract child list and order vector, with the per-type primitives as assumed callees, and (2) exception class and atomic failure for the character-data mutators (insert_data, delete_data, replace_data, set_data, append_data x 3 node kinds): Err implies data unchanged; IndexSizeErr iff offset past the end. Attribute maps, factories and the per-type insert_by_id checks are not covered.',
         level_note='Trusted as C16. Not decided: every mutator that needs a live node graph.',
         technique='contract-based deductive verification (Verus postconditions old/final on extracted real functions)',
         design_ref='DESIGN.md §4 C13'),
